@@ -160,6 +160,12 @@ func redactFindEmailEnd(src string, atIndex int) int {
 }
 
 func redactEmailCheckNumber(s string) bool {
+	// purely numeric means no letter anywhere, not only digits at both ends
+	for i := 0; i < len(s); i++ {
+		if c := s[i]; (c >= 'a' && c <= 'z') || (c >= 'A' && c <= 'Z') {
+			return false
+		}
+	}
 	if len(s) < 2 {
 		return false
 	}
